@@ -119,6 +119,18 @@ def container_valued_case(rng):
     return {"store": store, "ops": ops}
 
 
+def bulk_case(n, frozen, rng):
+    """n definitions arriving at once (load or copy_expr_from) at a manager without tasks, frozen or not: a frozen manager
+    rejects the call whatever its size and keeps no trace of it"""
+    R = lambda k: ["c", ["i", k]]
+    store = [["c", {"kind": "dict", "items": [["v%d" % i, i % 7] for i in range(n + 1)]}]]
+    defs = [[R("v%d" % (i + 1)), ["bin", "+", ["ref", R("v%d" % (i // 2))], ["const", 1]]] for i in range(n)]
+    via = ["copy"] if rng.random() < 0.7 else []
+    ops = ([["freeze"]] if frozen else []) + [["load", defs, True] + via] + ([["unfreeze"], ["refresh"]] if frozen else []) + \
+        [["set", R("v0"), ["plain", 3], "sv"]]
+    return {"store": store, "ops": ops}
+
+
 def run(ctx):
     ctx.rule = ("random manager histories with frozen windows at random positions containing every kind of API call (assign value/expression, "
                 "in-place, register, unregister, load, refresh, verify, cleanup), several windows per history, unbalanced freeze/unfreeze calls "
@@ -131,6 +143,16 @@ def run(ctx):
     obs = mc.run_impl_cases(cases)
     mism = mc.model_compare(ctx, cases, obs, "c17")
     fails = oracle(cases, obs)
+    # bulk arrivals of definitions (sizes around the thresholds a fast path would use), frozen and not: oracle only
+    bulk = [bulk_case(n, fz, ctx.rng) for n in (3, 70, 300, 1100, 4200) for fz in (True, False)]
+    bobs = mc.run_impl_cases(bulk)
+    fails += [(len(cases) + i, k, w) for i, k, w in oracle(bulk, bobs)]
+    for i, (c, ol) in enumerate(zip(bulk, bobs)):
+        ntasks = len(ol[-1]["tasks"])
+        want = 0 if c["ops"][0][0] == "freeze" else len(c["ops"][0][1])
+        if ntasks != want:
+            fails.append((len(cases) + i, len(c["ops"]) - 1, f"{ntasks} definitions after a bulk arrival of {len([o for o in c['ops'] if o[0] == 'load'][0][1])} "
+                          f"({'rejected: the manager was frozen' if want == 0 else 'accepted'}), expected {want}"))
     # unfreeze is transparent: twin run
     twins = [twin(c, ol) for c, ol in zip(cases, obs)]
     tobs = mc.run_impl_cases(twins)
@@ -160,7 +182,7 @@ def run(ctx):
     ctx.cov["input_distribution"] = {"ops": mc.op_distribution(cases),
                                      "rejected_calls": sum(1 for ol in obs for o in ol if o["err"] == "ValueError"),
                                      "tainted_by_order_cycle": sum(1 for ol in obs if mc.tainted_prefix(ol) is not None)}
-    mc.decide(ctx, proof_ok, cases, obs, mism, fails)
+    mc.decide(ctx, proof_ok, cases + bulk, obs + bobs, mism, fails)
 
 
 def replay(ctx, data):
